@@ -6,8 +6,10 @@ proof  : coq/Pencil_Model.v (executable model of construct_neighborhood_preservi
          and project), coq/Pencil_Spec.v, coq/Pencil_Proof*.v, coq/Properties_C10.v.
 tie    : K  exact stream: the three construct_* routines are called directly on dyadic feature
             matrices and harness-chosen dyadic sparse matrices; the FULL tables they return are
-            compared exactly with the extracted model (Qc) and the extracted decision procedure
-            spec_construct_b is run on the implementation's own tables;
+            compared exactly with the extracted model (Qc) and the extracted decision procedures
+            spec_construct_b (what the solver reads) and spec_full_b (both triangles) are run on
+            the implementation's own tables; every case also "in other units" (W / L, degree
+            vector, features times powers of two in 2^-70 .. 2^70: the problem is homogeneous);
          G  oracle contract of Eigen::GeneralizedSelfAdjointEigenSolver as used by
             generalized_eigendecomposition (which triangle is read, A V = B V L, V^T B V = I,
             ascending, columns 0..d-1 selected);
@@ -17,7 +19,8 @@ tie    : K  exact stream: the three construct_* routines are called directly on 
          E  public API (tapkee::embed): generalised-eigen residual / Rayleigh quotients against an
             independently built X M X^T, X B X^T (plain loops), B-orthonormality, embedding =
             centred samples projected, rotation pairs X -> R X (embedding unchanged up to column
-            sign, projection matrix rotated).
+            sign, projection matrix rotated); LPP over kernel widths spanning 40 decades of heat
+            weights; eigen_method Dense / not given / Randomized (refused).
 search : larger budgets of the same streams (the K stream's spec check is itself exact).
 """
 import hashlib
@@ -48,6 +51,13 @@ TRUSTED = [
     "minimality of the selected eigenvalues is proved (generalised Ky Fan, selected_columns_optimal) FROM the "
     "oracle's full contract; that Eigen's answer meets the contract is validated per run (G stream) and the "
     "Rayleigh quotients of the returned columns are compared with a reference spectrum (E stream)",
+    "exact stream in other units (+scaled cases): inputs multiplied by powers of two for the implementation and its "
+    "tables divided by the corresponding powers of two (Python Fractions, exact) before the extracted decision "
+    "procedures judge them on the case in its own units — justified by the theorems npe/lltsa/lpp_scale_equivariant and "
+    "generalised_problem_scale_free",
+    "Pencil_Model.embed_front (dispatch of generalized_eigendecomposition on eigen method / strategies) is hand-modelled; "
+    "tied by: Randomized is refused with unsupported_method_error, Dense / default reach the dense branch with "
+    "SmallestEigenvalues (recorded call chain); ARPACK / ViennaCL builds are not modelled",
     "extraction (ExtrOcamlBasic only) + OCaml 4.13.1 + coq/extract/c10_driver.ml (parsing/printing)",
     "harness/c10.cpp (drivers, plain-loop reference arithmetic in command R); g++ ASan/UBSan/_GLIBCXX_ASSERTIONS",
 ]
@@ -947,12 +957,16 @@ def eval_e(ctx, exe1, exe2, cases, stats, rng, rotate_every=2):
         if spectral:
             # backward-stable solvers lose about eps * cond(B) in the spectrum: tolerances grow with it
             slack = max(1.0, 1e4 * 2.3e-16 * condB / RQ_TOL)
-            ref = [parse_hex(x) for x in t["ref_evals"]]
-            rq = [parse_hex(x) for x in t["rq"]]
-            rs = [parse_hex(x) for x in t["res"]]
-            gram = unflat([parse_hex(x) for x in t["gram"]], d, d)
-            if line.split()[2] != "1" or not all(math.isfinite(x) for x in ref) or len(ref) != D or \
-                    len(rq) != d or len(rs) != d:
+            try:
+                ref = [parse_hex(x) for x in t["ref_evals"]]
+                rq = [parse_hex(x) for x in t["rq"]]
+                rs = [parse_hex(x) for x in t["res"]]
+                gram = unflat([parse_hex(x) for x in t["gram"]], d, d)
+                okref = line.split()[2] == "1" and all(math.isfinite(x) for x in ref) and len(ref) == D and \
+                    len(rq) == d and len(rs) == d and len(gram) == d and all(len(r) == d for r in gram)
+            except (KeyError, ValueError, IndexError):
+                okref = False
+            if not okref:
                 stats["ref_failed"] += 1
                 spectral = False
         if spectral:
